@@ -370,6 +370,16 @@ func (e *Enc) applySpec(fr *Frame, st *State, spec *FuncSpec, ci calleeInfo, arg
 		}
 		t, err := envPost.EvalBool(en.Expr)
 		if err != nil {
+			// a postcondition over the callee's own ghost monitors has no meaning for the caller: skip it
+			internal := false
+			for _, g := range spec.Ghosts {
+				if strings.Contains(err.Error(), "unknown identifier \""+g.Name+"\"") {
+					internal = true
+				}
+			}
+			if internal {
+				continue
+			}
 			unsupported("postcondition %s of %s at call site: %v", en.Label, spec.Name, err)
 		}
 		e.assume(st, t)
